@@ -54,6 +54,8 @@ impl<'a> MlpgAdjust<'a> {
         let mut pars = vec![vec![0.0; self.vector_length]; msd_flag.mask().len()];
 
         for vector_index in 0..self.vector_length {
+            #[cfg(jbonsai_verif)]
+            crate::verif::yield_point(3);
             let parameters: Vec<Vec<MeanVari>> = self
                 .windows
                 .iter()
